@@ -496,6 +496,8 @@ def finish(chk, level="other", explanation="", level_text=""):
             print(f"NOTE: listed finding no longer reproduces: property={prop} {ident[0]} {ident[1]} {ident[2]}")
     rc = 0
     if new:
+        if os.environ.get("VERIF_NO_EVIDENCE"):
+            replay_dir = os.path.join(os.environ.get("TMPDIR", "/tmp"), "verif_replay_scratch")
         os.makedirs(replay_dir, exist_ok=True)
         for i, v in enumerate(new):
             rp = os.path.join(replay_dir, f"{prop}-{i}.json")
@@ -548,8 +550,9 @@ def finish(chk, level="other", explanation="", level_text=""):
         "wall_s": round(time.time() - chk.t0, 3),
         "violations": len(new),
     }
-    with open(os.path.join(ev_dir, f"{prop}.json"), "w") as f:
-        json.dump(ev, f, indent=1, default=str)
+    if not os.environ.get("VERIF_NO_EVIDENCE"):   # set only by the seed/mutant harness (scratch copies)
+        with open(os.path.join(ev_dir, f"{prop}.json"), "w") as f:
+            json.dump(ev, f, indent=1, default=str)
     print(f"{prop}: {obligations} obligations over {len(per_rule)} rules, {discharged} hold, "
           f"{len(listed)} known finding(s), {len(new)} new violation(s) [{chk.tier}]")
     return rc
